@@ -156,7 +156,13 @@ func doAbuse() {
 	abuseCall("add_module_failing", func() error {
 		return c.AddModules(godi.NewModule("outer", godi.NewModule("inner", godi.AddSingleton(abuseS0))))
 	})
-	abuseCall("contains_nil", func() error { c.Contains(nil); c.ContainsKeyed(nil, "k"); c.Remove(nil); c.RemoveKeyed(nil, nil); return nil })
+	abuseCall("contains_nil", func() error {
+		c.Contains(nil)
+		c.ContainsKeyed(nil, "k")
+		c.Remove(nil)
+		c.RemoveKeyed(nil, nil)
+		return nil
+	})
 	abuseCall("build_cancelled_context", func() error {
 		ctx, cancel := context.WithCancel(context.Background())
 		cancel()
